@@ -97,9 +97,17 @@ pub fn run(rep: &Reporter, thorough: bool) -> (Value, Option<String>) {
             vec![Kind::StoreWrite, Kind::Dump],
             vec![Kind::StoreWrite, Kind::Store],
             vec![Kind::StoreWrite, Kind::StoreWrite],
+            vec![Kind::Dump, Kind::Dump, Kind::Dump],
+            vec![Kind::Dump, Kind::Store, Kind::Dump],
         ]
     } else {
-        vec![vec![Kind::Store, Kind::Store], vec![Kind::Store, Kind::Dump], vec![Kind::StoreWrite, Kind::Dump]]
+        vec![
+            vec![Kind::Store, Kind::Store],
+            vec![Kind::Store, Kind::Dump],
+            vec![Kind::StoreWrite, Kind::Dump],
+            // three parties (few steps each: a dump only takes and releases the lock)
+            vec![Kind::Dump, Kind::Dump, Kind::Dump],
+        ]
     };
     let mut executions = 0u64;
     let mut steps = 0u64;
